@@ -132,7 +132,20 @@ def dispatch(ex, e, text, handler, recv, args, kwargs, st):
 
 def apply_handler(ex, handler, args, kwargs, st, text):
     if isinstance(handler, Builtin):
-        return handler.fn(ex, st, args, kwargs)
+        # a modelled callee may update ghost state only if it DECLARES it (fn.ghost_modifies): loops havoc exactly the declared ghosts,
+        # so an undeclared update would silently escape the loop rule -> the unit is UNDECIDED instead
+        before = dict(st.ghost)
+        res = handler.fn(ex, st, args, kwargs)
+        declared = set(getattr(handler.fn, "ghost_modifies", ()))
+        for r in res:
+            for k, v in r.st.ghost.items():
+                if k.startswith("_") or k in declared:
+                    continue
+                b = before.get(k)
+                same = b is v or (b is not None and hasattr(b, "eq") and hasattr(v, "eq") and b.eq(v))
+                if not same:
+                    raise Unsupported(f"model of `{text}` updates ghost `{k}` without declaring it (ghost_modifies)")
+        return res
     if isinstance(handler, Inline):
         return inline_call(ex, handler, args, kwargs, st, text)
     if isinstance(handler, Spec):
